@@ -173,7 +173,13 @@ static void run_program(Instance &I) {
         } else if (op == "set_param") {
             EbSvtAv1EncConfiguration save = *I.cfg;
             if (o.has("bad")) for (auto &kv : o["bad"].o) cfg_set(*I.cfg, kv.first, kv.second);
-            if (o.has("set")) { for (auto &kv : o["set"].o) cfg_set(*I.cfg, kv.first, kv.second); save = *I.cfg; }
+            if (o.has("set")) {   // per-session settings (e.g. first pass / second pass of a two-pass encode in one program)
+                for (auto &kv : o["set"].o) {
+                    if (kv.first == "use_saved_stats") { if (kv.second.I()) { I.cfg->rc_twopass_stats_in.buf = I.saved_stats.data(); I.cfg->rc_twopass_stats_in.sz = I.saved_stats.size(); } }
+                    else cfg_set(*I.cfg, kv.first, kv.second);
+                }
+                save = *I.cfg;
+            }
             sim_api_enter(); EbErrorType e = svt_av1_enc_set_parameter(nul == "handle" ? nullptr : I.h, nul == "cfg" ? nullptr : I.cfg); sim_api_exit();
             *I.cfg = save;
             if (e != EB_ErrorNone && nul == "" && !o.has("bad")) { I.setup_failed = true; I.last_failed_op = "set_param"; }
